@@ -22,8 +22,17 @@ RULE = ('signatures: a fixed catalogue (T, method-level S, constrained TC/TCP, b
         'Optional, List, defaults, no parameter at all) x 22 bodies x values that agree / clash with the outer bindings (quick: a seeded 1/12 slice), and '
         'seeded histories of call trees instantiated from a pool of generated bodies (1..3 nested calls per body, depth <= 4, over 1..4 instances); '
         'the outermost call AND every journalled nested call are compared with the model (call tree), the specification of that call, and the same call '
-        'made alone with an empty body on a fresh instance. Every instance is created in generated module source. non-trivial = some step checks a value '
-        'against a TypeVar')
+        'made alone with an empty body on a fresh instance. OVERLAPPING CALLS OF ONE FUNCTION OBJECT: (a) recursion - the generated body calls the very same '
+        'function / method again (plain, static, class method, same instance) with other values, to depth 3, chains and two recursive calls per body; (b) 1..3 LIVE GENERATORS '
+        'of one generator function / method (-> Iterator[T] / Generator[S, None, None] / Iterable[S], with and without parameters, on Box[X], Pair, NG, Direct, Raw, plain, '
+        'static, class methods, through self and from a plain function), made and advanced with next() by a generated body in sequential / alternating / late-start / reversed / '
+        'shuffled order until exhausted, yielding conforming and non-conforming values at every position; (c) 1..3 coroutines of one coroutine function gathered on one event '
+        'loop (1..2 awaits each); directed family (every store kind x signature x value pattern x order; quick: a seeded 1/4 slice) + seeded random signatures / values; each call '
+        'in flight is compared with the model (schedule of check events over per-call dicts), judged by the specification of that call (yielded values are checks of the call) '
+        'and against the same call seen through alone. Every instance is created in generated module source. non-trivial = some step checks a value '
+        'against a TypeVar. OBJECT LIFETIMES: every Cls[X]() is created right after an instance Cls[object]() of the same class was used once and discarded '
+        '(the creation is repeated, with one more discarded instance each time, until the new instance has the address of a dead one - a handful of rounds at most: '
+        'what is remembered per address would be inherited from the dead instance)')
 EXHAUSTIVE = {'quick': False, 'thorough': False}
 ASSUMPTIONS = ['annotations and X come from the modelled vocabulary: classes without __annotations__ tricks (no NamedTuple values), Any, TypeVars '
                '(bare, constrained by classes, bound by a class or by its name), List / Dict / Tuple / Tuple[x, ...] / Optional / Union / Type; '
@@ -32,10 +41,16 @@ ASSUMPTIONS = ['annotations and X come from the modelled vocabulary: classes wit
                'unparametrised instances of a generic class, and Type[T] positions (the code never compares the class object with T), are modelled and compared but not claimed',
                'keyword calls only; the values are checked, not consumed, by the method bodies; a body makes its nested calls in order, catches and journals whatever '
                'they raise, and then returns the value prepared for it (the outcome of a nested call reaches its caller through the journal only)',
-               'nested calls under a root reached through the constructor-scan stream are not generated (the source scan looks at the caller of the OUTERMOST checked call)']
+               'nested calls under a root reached through the constructor-scan stream are not generated (the source scan looks at the caller of the OUTERMOST checked call)',
+               'generator functions (-> Iterator / Generator[.., None, None] / Iterable) yield the items of a list they are handed and are driven with next() until they are exhausted '
+               'or raise (no send / throw / close: the GenWrap check); coroutine functions await asyncio.sleep(0) once or twice and are gathered on one event loop; a body keeps only '
+               'calls WITHOUT nested calls in flight']
 TRUSTED = ['typing introspection of the generated annotations (get_type_arguments, __constraints__, __bound__, __orig_class__, __orig_bases__) is exercised, not modelled',
            'issubclass on the harness class table is sent to the model as the relation `sub`',
-           'the constructor-call source scan (_assert_constructor_called_with_generics) is a flag of the generated program, modelled as "the accessor raises"']
+           'the constructor-call source scan (_assert_constructor_called_with_generics) is a flag of the generated program, modelled as "the accessor raises"',
+           'GeneratorWrapper (which annotation argument is the yield / send / return type, when send / return are checked: the GenWrap check) and asyncio (round-robin '
+           'stepping of gathered coroutines) are exercised, not modelled: the harness turns a generator / coroutine call into its sequence of check events, the model '
+           'interleaves these events and keeps the dicts']
 
 # ------------------------------------------------------------------ vocabulary
 
@@ -146,15 +161,28 @@ def val_class(v):
 
 # ------------------------------------------------------------------ signatures and cases
 
-def sig(ps, ret=None, defs=None):
+def sig(ps, ret=None, defs=None, flav=None, awaits=1):
     """ps: [(param name, annotation)]; ret: annotation of the result (None: `-> None`, the body returns nothing).
     With a result annotation the method gets an extra parameter `r: object` and returns it.
     defs: {param name: value} — these parameters (a suffix of ps) have that DEFAULT value; a call may omit them.  With defaults
-    the parameter `r` stands first (a parameter without default cannot follow one with a default)."""
+    the parameter `r` stands first (a parameter without default cannot follow one with a default).
+    flav: None — an ordinary function; 'rec' — the body calls THE SAME function again as often as the journal node of the running call
+    says (scripted recursion) before it returns r; 'iter' / 'gen' / 'itb' — a generator function `-> Iterator[ret]` /
+    `-> Generator[ret, None, None]` / `-> Iterable[ret]` that yields the items of the list it receives as `r`; 'async' — a coroutine
+    function that awaits `awaits` times (asyncio.sleep(0)) and then returns r."""
     s = {'ps': [[n, a] for n, a in ps], 'ret': ret}
     if defs:
         s['defs'] = dict(defs)
+    if flav:
+        s['flav'] = flav
+        if flav == 'async':
+            s['awaits'] = awaits
+        if flav in GEN_FLAVS and (ret is None or defs):
+            raise ValueError('a generator signature needs a yield annotation and has no defaults')
     return s
+
+
+GEN_FLAVS = ('iter', 'gen', 'itb')
 
 
 def sig_name(s):
@@ -162,17 +190,32 @@ def sig_name(s):
 
 
 def sig_checks(s, vals, r=None):
-    """the checks of a call in the order of the parameters; an omitted parameter is checked with its default value"""
+    """the checks of a call in the order they are made; an omitted parameter is checked with its default value"""
+    return [c for seg in sig_segs(s, vals, r) for c in seg]
+
+
+def sig_segs(s, vals, r=None):
+    """the checks of a call grouped by the moments they are made: an ordinary function — the parameters, [the body], the result;
+    a generator function (r = the list of values it yields) — the parameters when the call is made, then per next(): the None sent in
+    (not for the first one) and the yielded value, last the None sent in and the None returned; a coroutine function — the parameters
+    when it is first stepped, nothing at each further resumption, the result when the body ends"""
     defs = s.get('defs') or {}
+    flav = s.get('flav')
+    if flav in GEN_FLAVS:
+        ys = r
+        segs = [[[a, vals[n]] for n, a in s['ps']] + [[OBJ, vlist(*ys)]]]
+        for k, y in enumerate(ys):
+            segs.append(([[NONE, VNONE]] if k else []) + [[s['ret'], y]])
+        segs.append(([[NONE, VNONE]] if ys else []) + [[NONE, VNONE]])
+        return segs
     out = [[OBJ, r]] if (s['ret'] is not None and defs) else []
     out += [[a, vals[n] if n in vals else defs[n]] for n, a in s['ps']]
-    if s['ret'] is not None:
-        if not defs:
-            out.append([OBJ, r])
-        out.append([s['ret'], r])
-    else:
-        out.append([NONE, VNONE])
-    return out
+    if s['ret'] is not None and not defs:
+        out.append([OBJ, r])
+    last = [[s['ret'], r]] if s['ret'] is not None else [[NONE, VNONE]]
+    if flav == 'async':
+        return [out] + [[] for _ in range(s.get('awaits', 1) - 1)] + [last]
+    return [out, last]
 
 
 def val_src(v):
@@ -217,10 +260,15 @@ HOWS = ('self', 'obj', 'plain', 'static', 'classm')
 
 def node_name(st):
     """name of the generated function of a call: a call without nested calls uses the method of its signature (empty body); a
-    call whose body makes nested calls gets a method of its own — signature + the nested calls written out in the body"""
-    if not st.get('kids'):
+    call whose body makes nested calls gets a method of its own — signature + the nested calls written out in the body.  A function
+    with scripted recursion ('rec') is one function whatever the depth; a body that keeps several calls in flight ('order': live
+    generators advanced in that order, 'aio': coroutines gathered) is named after the calls it makes, not after the order."""
+    if not st.get('kids') or st['sig'].get('flav') == 'rec':
         return sig_name(st['sig'])
     shape = [st['sig'], [[k['how'], node_name(k)] for k in st['kids']]]
+    mode = ('aio:' + ('gather' if st['aio'] is True else st['aio'])) if st.get('aio') else ('sched' if 'order' in st else '')
+    if mode:
+        shape.append(mode)
     return 'n' + hashlib.sha1(json.dumps(shape, sort_keys=True).encode()).hexdigest()[:12]
 
 
@@ -242,17 +290,34 @@ def mk_case(insts, steps, origin):
         key = (insts[i]['cls'], node_name(st))
         return fns.setdefault(key, len(fns))
 
-    def mstep(st, op):
+    def mstep(st, op, job=False):
         i = st['i']
-        m = {'i': i, 'f': fn_id(i, st), 'init': op == 'init', 'scan': op == 'scan', 'checks': sig_checks(st['sig'], st['vals'], st.get('r'))}
+        segs = sig_segs(st['sig'], st['vals'], st.get('r'))
+        m = {'i': i, 'f': fn_id(i, st), 'init': op == 'init', 'scan': op == 'scan', 'checks': [c for seg in segs for c in seg]}
+        if job:
+            m['segs'] = [len(seg) for seg in segs]
+            m['eager'] = st['sig'].get('flav') in GEN_FLAVS
+        elif st['sig'].get('flav') in GEN_FLAVS + ('async',):
+            raise ValueError('a generator / coroutine call is made by a body that keeps it in flight (a step with "order")')
         if st.get('kids'):
+            sched = 'order' in st
             for k in st['kids']:
                 c = insts[k['i']]['cls']
+                if k['how'] == 'rec':
+                    if sched or k['i'] != i or k['sig'] != st['sig'] or st['sig'].get('flav') != 'rec':
+                        raise ValueError('recursion: the nested call is not a call of the same function on the same instance')
+                    continue
                 if k['how'] not in HOWS or (c in INSTANCE_KINDS) != (k['how'] in ('self', 'obj')) or (c not in INSTANCE_KINDS and c != k['how']):
                     raise ValueError(f'nested call: how={k["how"]} on an instance of kind {c}')
                 if k['how'] == 'self' and insts[i]['cls'] in INSTANCE_KINDS and k['i'] != i:
                     raise ValueError('nested call on self names another instance')
-            m['kids'] = [mstep(k, 'call') for k in st['kids']]
+                if sched and k.get('kids'):
+                    raise ValueError('a call in flight makes no nested calls')
+            m['kids'] = [mstep(k, 'call', job=sched) for k in st['kids']]
+            if sched:
+                if any(not (0 <= n < len(st['kids'])) for n in st['order']):
+                    raise ValueError('order names a call that is not there')
+                m['order'] = list(st['order'])
         return m
     for st in steps:
         op = st.get('op', 'call')
@@ -267,6 +332,9 @@ def mk_case(insts, steps, origin):
         x = {'i': st['i'], 'op': op, 'sig': st['sig'], 'vals': st['vals'], 'r': st.get('r')}
         if st.get('kids'):
             x['kids'] = st['kids']
+        for key in ('order', 'aio'):
+            if key in st:
+                x[key] = st[key]
         xsteps.append(x)
     return {'m': 'typevars', 'c': {'env': ENV, 'insts': [inst_model(d) for d in insts], 'steps': msteps},
             'x': {'insts': insts, 'steps': xsteps, 'origin': origin}}
@@ -701,7 +769,188 @@ def nested_directed(rng, quick):
                         # the same outer call once more afterwards: what the nested calls left behind must not matter either
                         again = {'i': 0, 'sig': sg, 'vals': dict(vals), 'r': r}
                         out.append(mk_case(insts, [root, again] if n % 3 == 0 else [root], 'nest'))
+    return out + overlap_directed(rng, quick)
+
+
+# ---- overlapping calls of ONE function: recursion, live generators, coroutines in flight
+
+OVERLAP = {
+    'r_Sret': sig([('a', S)], ret=S, flav='rec'),
+    'r_ret': sig([('a', T)], ret=T, flav='rec'),
+    'r_SS': sig([('a', S), ('b', S)], flav='rec'),
+    'r_TOT': sig([('a', T), ('b', opt(T))], flav='rec'),
+    'r_LSret': sig([('a', lst(S))], ret=S, flav='rec'),
+    'g_S': sig([('a', S)], ret=S, flav='iter'),
+    'g_T': sig([('a', T)], ret=T, flav='iter'),
+    'g_T0': sig([], ret=T, flav='iter'),
+    'g_S0': sig([], ret=S, flav='iter'),
+    'g_Sgen': sig([('a', S)], ret=S, flav='gen'),
+    'g_Tgen': sig([], ret=T, flav='gen'),
+    'g_LS': sig([('a', lst(S))], ret=S, flav='itb'),
+    'g_OT': sig([('a', T)], ret=opt(T), flav='iter'),
+    'g_int': sig([], ret=INT, flav='iter'),
+    'c_Sret': sig([('a', S)], ret=S, flav='async'),
+    'c_ret': sig([('a', T)], ret=T, flav='async', awaits=2),
+    'c_SS': sig([('a', S), ('b', S)], flav='async'),
+    'c_T0': sig([], ret=T, flav='async'),
+    'g_TF': sig([('a', TF)], ret=TF, flav='iter'),          # bound given by name: resolved when the value is yielded (fixed 173abdd)
+    'c_TF': sig([('a', TF)], ret=TF, flav='async'),         # ... when the event loop steps the coroutine
+}
+
+
+def sched_step(i, kids, order=None, aio=None):
+    """a step whose body (an ordinary checked function `() -> None` on instance / kind i) keeps the calls `kids` in flight: generator calls
+    made and advanced in `order`, or (aio) coroutine calls on one event loop: 'gather' - asyncio.gather; 'tasks' - asyncio.create_task for
+    each, then awaited (both: round robin of the loop, every coroutine is stepped once before the first one goes on); 'await' - awaited one
+    after the other from a coroutine of the generated module (no overlap)"""
+    if aio:
+        aio = 'gather' if aio is True else aio
+        lens = [len(sig_segs(k['sig'], k['vals'], k.get('r'))) for k in kids]
+        order = [n for n, ln in enumerate(lens) for _ in range(ln)] if aio == 'await' else [n for _ in range(max(lens)) for n in range(len(kids))]
+    st = {'i': i, 'sig': WARM, 'vals': {}, 'r': None, 'kids': kids, 'order': list(order)}
+    if aio:
+        st['aio'] = aio
+    return st
+
+
+def gen_orders(rng, lens):
+    """orders in which generators that need lens[k] advances each (the call, one per yielded value, the final one) can be driven"""
+    seq = [k for k, n in enumerate(lens) for _ in range(n)]
+    left = list(lens)
+    rr = []
+    while any(left):
+        for k in range(len(lens)):
+            if left[k]:
+                rr.append(k)
+                left[k] -= 1
+    # late: the first one is made and asked once before the others exist
+    late = [0, 0] + [k for n, k in enumerate(rr) if not (k == 0 and rr[:n + 1].count(0) <= 2)]
+    shuffled = list(seq)
+    rng.shuffle(shuffled)
+    return {'seq': seq, 'zip': rr, 'late': late, 'rev': list(reversed(seq)), 'mix': shuffled}
+
+
+def overlap_directed(rng, quick):
+    """calls of ONE function object that overlap in time, each with its own binding of the TypeVars: (a) recursion to depth 1..3 (the body
+    calls the same function again before it returns; chains and two recursive calls in one body); (b) 2..3 live generators of one generator
+    function / method (`-> Iterator[T]`, `-> Generator[S, None, None]`, `-> Iterable[S]`, with and without parameters) advanced in
+    sequential / alternating / late-start / reversed / shuffled order, yielding conforming and non-conforming values at every position;
+    (c) 2..3 coroutines of one coroutine function in flight on one event loop (1..2 awaits).  Every store kind; for methods both through
+    `self` and from a plain function.  quick: a seeded slice."""
+    cat = OVERLAP
+    I, Sx, Cx = inst('int'), inst('str'), inst('C1')
+    kinds = [{'cls': 'plain'}, {'cls': 'static'}, {'cls': 'classm'}, {'cls': 'NG'}, {'cls': 'Direct'}, {'cls': 'Box', 'X': [INT], 'warm': True},
+             {'cls': 'Box', 'X': [STR], 'warm': False}, {'cls': 'Pair', 'X': [STR, INT], 'warm': True}, {'cls': 'Raw'},
+             {'cls': 'Box', 'X': [OBJ], 'warm': True}, {'cls': 'Box', 'X': [uni(INT, STR)], 'warm': False}]     # X that several classes conform to
+    out = []
+    n = 0
+    stride = 4 if quick else 1
+    off = rng.randrange(stride)
+
+    def keep():
+        nonlocal n
+        n += 1
+        return (n + off) % stride == 0
+
+    def how_of(d):
+        return 'self' if d['cls'] in INSTANCE_KINDS else d['cls']
+    # (a) recursion
+    rot = [I, Sx, Cx]
+    for name in [k for k in cat if k.startswith('r_')]:
+        sg = cat[name]
+        for kd in kinds:
+            for depth in (1, 2, 3):
+                for base in range(3):
+                    for bad in (None, 0, depth):
+                        if not keep():
+                            continue
+                        node = None
+                        for lvl in range(depth, -1, -1):
+                            v = rot[(base + lvl) % 3]
+                            vals, r = value_pair_for(sg, v, rot[(base + lvl + 1) % 3] if bad == lvl else v)
+                            cur = {'i': 0, 'how': 'rec', 'sig': sg, 'vals': vals, 'r': r}
+                            if node is not None:
+                                cur['kids'] = [node]
+                                if lvl == 0 and depth == 2 and base == 1:            # two recursive calls in one body
+                                    twin = json.loads(json.dumps(node))
+                                    cur['kids'].append(twin)
+                            node = cur
+                        node.pop('how')
+                        out.append(mk_case([dict(kd)], [node], 'rec'))
+    # (b) live generators, (c) coroutines in flight
+    patterns = [((I, [I, I]), (Sx, [Sx, Sx])), ((I, [I, Sx]), (Sx, [Sx])), ((Sx, [I]), (I, [I, I, I])), ((Cx, [Cx, inst('G')]), (I, [])),
+                ((I, [I]), (I, [I, I]), (Sx, [Sx, Sx]))]
+    for name in [k for k in cat if k[0] in 'gc']:
+        sg = cat[name]
+        aio = sg['flav'] == 'async'
+        for kd in kinds:
+            for via_self in (True, False):
+                if not via_self and kd['cls'] not in INSTANCE_KINDS:
+                    continue
+                for pat in patterns:
+                    for oname in (['gather', 'tasks', 'await'] if aio else ['seq', 'zip', 'late', 'rev', 'mix']):
+                        if not keep():
+                            continue
+                        insts = [dict(kd)] if via_self else [{'cls': 'plain'}, dict(kd)]
+                        tgt = 0 if via_self else 1
+                        kids = []
+                        for (a, ys) in pat:
+                            vals = {n_: (vlist(a) if an[0] == 'list' else a) for n_, an in sg['ps']}
+                            kids.append({'i': tgt, 'how': how_of(kd) if via_self else 'obj', 'sig': sg, 'vals': vals,
+                                         'r': (list(ys) if not aio else (ys[0] if ys else a)) if sg['ret'] is not None else None})
+                        order = None if aio else gen_orders(rng, [len(k['r']) + 2 for k in kids])[oname]
+                        out.append(mk_case(insts, [sched_step(0, kids, order, oname if aio else None)], 'aio' if aio else 'gens'))
     return out
+
+
+def overlap_pool(rng, sigs, n):
+    """(what, signature) pairs for the seeded overlap stream — a bounded pool, since every signature and every body is written out in
+    the generated module: a random signature turned into a recursive function / a generator function / a coroutine function"""
+    pool = []
+    for _ in range(n):
+        base = rng.choice(sigs)
+        what = rng.choice(['rec', 'gens', 'gens', 'aio'])
+        if what == 'rec':
+            pool.append((what, dict(base, flav='rec')))
+        elif what == 'gens':
+            ret = base['ret'] if base['ret'] is not None else rng.choice([tv(t[0]) for t in TVS[:2]] + [INT])
+            pool.append((what, sig([(n_, a) for n_, a in base['ps']], ret=ret, flav=rng.choice(GEN_FLAVS))))
+        else:
+            pool.append((what, sig([(n_, a) for n_, a in base['ps']], ret=base['ret'], flav='async', awaits=rng.choice([1, 1, 2]))))
+    return pool
+
+
+def rand_overlap_history(rng, pool):
+    """seeded: recursion trees, generator schedules and coroutine groups over random signatures, values and instances"""
+    insts = [rand_inst(rng) for _ in range(rng.choice([1, 1, 2]))]
+    steps = [{'i': i, 'sig': INIT, 'vals': {'a': rand_value(rng, 1)}, 'op': 'init'} for i, d in enumerate(insts) if d['cls'] == 'BoxI']
+    for _ in range(rng.choice([1, 1, 2])):
+        i = rng.randrange(len(insts))
+        d = insts[i]
+        what, sg = rng.choice(pool)
+        if what == 'rec':
+            def grow(depth):
+                st = rand_call(rng, i, sg, class_params(rng, d))
+                if depth > 0:
+                    ks = [dict(grow(depth - 1), how='rec') for _ in range(rng.choice([1, 1, 1, 2]))]
+                    st['kids'] = ks
+                return st
+            steps.append(grow(rng.choice([1, 2, 2, 3])))
+            continue
+        how = 'self' if d['cls'] in INSTANCE_KINDS else d['cls']
+        kids = []
+        for _k in range(rng.choice([1, 2, 2, 3])):
+            gx = class_params(rng, d)
+            sigma = {}
+            vals = {n: conforming(rng, a, sigma, 3, gx) for n, a in sg['ps']}
+            if what == 'gens':
+                r = [conforming(rng, sg['ret'], sigma, 2, gx) for _ in range(rng.choice([0, 1, 2, 2, 3]))]
+            else:
+                r = conforming(rng, sg['ret'], sigma, 3, gx) if sg['ret'] is not None else None
+            kids.append({'i': i, 'how': how, 'sig': sg, 'vals': vals, 'r': r})
+        order = None if what == 'aio' else rng.choice(list(gen_orders(rng, [len(k['r']) + 2 for k in kids]).values()))
+        steps.append(sched_step(i, kids, order, rng.choice(['gather', 'gather', 'tasks', 'await']) if what == 'aio' else None))
+    return insts, steps
 
 
 # ------------------------------------------------------------------ corpus of recorded regions (fixed ones must pass)
@@ -746,6 +995,35 @@ def corpus():
                            kid('obj', 1, 'm_Sret', {'a': inst('float')}, inst('float'), [kid('plain', 2, 'm_SS', {'a': inst('int'), 'b': inst('int')}),
                                                                                         kid('obj', 0, 'm_ret', {'a': inst('int')}, inst('str'))]),
                            kid('self', 0, 'm_S', {'a': inst('C1')})]}], 'corpus:nested:depth3'))
+    # overlapping calls of ONE function (seeded change w4-C04-2: one binding dict per decorated function, emptied when a call starts)
+    I_, S_ = inst('int'), inst('str')
+    rec = OVERLAP['r_ret']
+    out.append(mk_case([{'cls': 'plain'}], [{'i': 0, 'sig': rec, 'vals': {'a': I_}, 'r': I_, 'kids': [
+        {'i': 0, 'how': 'rec', 'sig': rec, 'vals': {'a': S_}, 'r': S_}]}], 'corpus:overlap:recursionWithAnotherBinding'))
+    g = OVERLAP['g_T']
+    two = [{'i': 0, 'how': 'plain', 'sig': g, 'vals': {'a': I_}, 'r': [I_, I_]}, {'i': 0, 'how': 'plain', 'sig': g, 'vals': {'a': S_}, 'r': [S_, S_]}]
+    out.append(mk_case([{'cls': 'plain'}], [sched_step(0, two, [0, 1, 0, 1, 0, 1, 0, 1])], 'corpus:overlap:twoLiveGenerators'))
+    co = OVERLAP['c_Sret']
+    out.append(mk_case([{'cls': 'plain'}], [sched_step(0, [{'i': 0, 'how': 'plain', 'sig': co, 'vals': {'a': I_}, 'r': I_},
+                                                          {'i': 0, 'how': 'plain', 'sig': co, 'vals': {'a': S_}, 'r': S_}], aio='gather')],
+                       'corpus:overlap:twoCoroutinesInFlight'))
+    # generator methods use the store of their call / instance (seeded change w4-C07-2: the wrapper was handed the private dict)
+    box = {'cls': 'Box', 'X': [INT], 'warm': True}
+    each = OVERLAP['g_T0']
+    out.append(mk_case([dict(box)], [sched_step(0, [{'i': 0, 'how': 'self', 'sig': each, 'vals': {}, 'r': [S_]}], [0, 0, 0])], 'corpus:generator:boxIntYieldsStr'))
+    out.append(mk_case([dict(box)], [sched_step(0, [{'i': 0, 'how': 'self', 'sig': each, 'vals': {}, 'r': [I_, I_]}], [0, 0, 0, 0])], 'corpus:generator:boxIntYieldsInts'))
+    conv = OVERLAP['g_S']
+    out.append(mk_case([{'cls': 'NG'}], [sched_step(0, [{'i': 0, 'how': 'self', 'sig': conv, 'vals': {'a': I_}, 'r': [S_]}], [0, 0, 0])],
+                       'corpus:generator:methodLevelTypeVarSharedWithYields'))
+    # fixed 173abdd forwardRefBoundInDeferredCheck: a TypeVar bound given by name in a generator function (the yielded value was checked
+    # without any context) and in a coroutine stepped by the event loop (the context was the frame of the loop): conforming values
+    C1_ = inst('C1')
+    out.append(mk_case([{'cls': 'plain'}], [sched_step(0, [{'i': 0, 'how': 'plain', 'sig': OVERLAP['g_TF'], 'vals': {'a': C1_}, 'r': [C1_]}], [0, 0, 0])],
+                       'corpus:fixed:forwardRefBoundInDeferredCheck'))
+    out.append(mk_case([{'cls': 'plain'}], [sched_step(0, [{'i': 0, 'how': 'plain', 'sig': OVERLAP['c_TF'], 'vals': {'a': C1_}, 'r': C1_}], aio='gather')],
+                       'corpus:fixed:forwardRefBoundInDeferredCheck'))
+    out.append(mk_case([{'cls': 'plain'}], [sched_step(0, [{'i': 0, 'how': 'plain', 'sig': OVERLAP['c_TF'], 'vals': {'a': C1_}, 'r': C1_}], aio='tasks')],
+                       'corpus:fixed:forwardRefBoundInDeferredCheck'))
     return out
 
 
@@ -852,6 +1130,13 @@ def cases(rng, tier):
     for _ in range(1500 if quick else 60000):
         insts, steps = rand_nested_history(rng, pool, small)
         out.append(mk_case(insts, steps, 'nesthist'))
+    # (10) overlapping calls of one function, seeded (the directed family is part of nested_directed): recursion trees, generator
+    #      schedules, coroutine groups over catalogue + random signatures
+    nodef = [s_ for s_ in small + sigs[len(cat):] if not s_.get('defs')]
+    opool = overlap_pool(rng, nodef, 60 if quick else 400)
+    for _ in range(800 if quick else 40000):
+        insts, steps = rand_overlap_history(rng, opool)
+        out.append(mk_case(insts, steps, 'overlap'))
     return out
 
 
@@ -879,34 +1164,77 @@ NoneType = type(None)
 '''
 
 
-def method_src(name, s, self_kw='self', deco='', indent='    ', kids=None):
+def method_src(name, s, self_kw='self', deco='', indent='    ', kids=None, mode=None):
     """kids: [(how, name of the nested function)] — the body makes these calls, in order, before it returns; whatever a nested call
-    raises is caught and journalled (`_k['exc']`), `_CUR[0]` is the journal node of the call that is running"""
+    raises is caught and journalled (`_k['exc']`), `_CUR[0]` is the journal node of the call that is running.
+    mode 'sched': the calls are generator calls; the body makes / advances them in the order its journal node prescribes (first mention
+    of a call: it is made; every further mention: next() on it) — several generators are alive at the same time;
+    mode 'aio:gather' / 'aio:tasks' / 'aio:await': the calls are coroutine calls run on one event loop."""
     defs = s.get('defs') or {}
+    flav = s.get('flav')
     ps = ([self_kw] if self_kw else []) + (['r: object'] if s['ret'] is not None and defs else [])
     ps += [f'{n}: {ann_src(a)}' + (f' = {val_src(defs[n])}' if n in defs else '') for n, a in s['ps']]
     if s['ret'] is not None:
         if not defs:
             ps.append('r: object')
-        head = f'def {name}({", ".join(ps)}) -> {ann_src(s["ret"])}:'
+        res = {'iter': 'Iterator[%s]', 'gen': 'Generator[%s, None, None]', 'itb': 'Iterable[%s]'}.get(flav, '%s') % ann_src(s['ret'])
+        head = f'def {name}({", ".join(ps)}) -> {res}:'
         body = 'return r'
     else:
         head = f'def {name}({", ".join(ps)}) -> None:'
         body = 'pass'
     decos = ''.join(indent + d + '\n' for d in deco.split('\n') if d)
-    if not kids:
+
+    def target(how, child):
+        return {'self': f'self.{child}' if self_kw == 'self' else f"_k['obj'].{child}", 'obj': f"_k['obj'].{child}", 'plain': f'f_{child}',
+                'static': f'Box.sm_{child}', 'classm': f'Box.cm_{child}'}[how]
+    if flav in GEN_FLAVS:
+        lines = [head, '    for _v in r:', '        yield _v']
+    elif flav == 'async':
+        lines = ['async ' + head, f"    for _n in range({s.get('awaits', 1)}):", '        await asyncio.sleep(0)', '    ' + body]
+    elif flav == 'rec':
+        me = f'self.{name}' if self_kw == 'self' else (f'Box.{name}' if 'method' in deco else name)       # the very same function object
+        lines = [head, '    _c = _CUR[0]', "    for _n in range(len(_c['kids'])):", '        _k = _enter(_c, _n)', '        try:',
+                 f"            {me}(**_k['kw'])", '        except BaseException as _e:', "            _k['exc'] = _e", '        _leave(_c)', '    ' + body]
+    elif not kids:
         return decos + indent + head + ' ' + body + '\n'
-    lines = [head, '    _c = _CUR[0]']
-    for k, (how, child) in enumerate(kids):
-        target = {'self': f'self.{child}' if self_kw == 'self' else f"_k['obj'].{child}", 'obj': f"_k['obj'].{child}", 'plain': f'f_{child}',
-                  'static': f'Box.sm_{child}', 'classm': f'Box.cm_{child}'}[how]
-        lines += [f'    _k = _enter(_c, {k})', '    try:', f"        {target}(**_k['kw'])", '    except BaseException as _e:', "        _k['exc'] = _e",
-                  '    _leave(_c)']
-    lines.append('    ' + body)
+    elif mode == 'sched':
+        lines = [head, '    _c = _CUR[0]', '    _live = {}', "    for _n in _c['order']:", "        _k = _c['kids'][_n]", "        if _k['done']:", '            continue',
+                 '        try:', '            if _n not in _live:', "                _k['ran'] = True"]
+        for k, (how, child) in enumerate(kids):
+            lines += [f"                {'if' if k == 0 else 'elif'} _n == {k}:", f"                    _live[_n] = {target(how, child)}(**_k['kw'])"]
+        lines += ['            else:', "                _k['got'].append(next(_live[_n]))", '        except StopIteration:', "            _k['done'] = True",
+                  '        except BaseException as _e:', "            _k['exc'] = _e", "            _k['done'] = True", '    ' + body]
+    elif mode and mode.startswith('aio:'):
+        # all coroutines on one event loop: gathered / wrapped in tasks first and awaited afterwards (both: every coroutine is in flight before
+        # the first one goes on) / awaited one after the other from a coroutine of this module (no overlap)
+        lines = [head, '    _c = _CUR[0]', '    async def _all():', '        _res = []']
+        for k, (how, child) in enumerate(kids):
+            call = f"{target(how, child)}(**_k['kw'])"
+            lines.append(f"        _k = _c['kids'][{k}]")
+            if mode == 'aio:await':
+                lines += ['        try:', f'            await {call}', '            _res.append(None)', '        except BaseException as _e:', '            _res.append(_e)']
+            else:
+                lines.append(f"        _res.append({call if mode == 'aio:gather' else 'asyncio.create_task(' + call + ')'})")
+        if mode == 'aio:gather':
+            lines += ['        return [_r if isinstance(_r, BaseException) else None for _r in await asyncio.gather(*_res, return_exceptions=True)]']
+        elif mode == 'aio:tasks':
+            lines += ['        _out = []', '        for _t in _res:', '            try:', '                await _t', '                _out.append(None)',
+                      '            except BaseException as _e:', '                _out.append(_e)', '        return _out']
+        else:
+            lines += ['        return _res']
+        lines += ["    for _k, _r in zip(_c['kids'], asyncio.run(_all())):", "        _k['ran'] = True", "        _k['exc'] = _r", '    ' + body]
+    else:
+        lines = [head, '    _c = _CUR[0]']
+        for k, (how, child) in enumerate(kids):
+            lines += [f'    _k = _enter(_c, {k})', '    try:', f"        {target(how, child)}(**_k['kw'])", '    except BaseException as _e:', "        _k['exc'] = _e",
+                      '    _leave(_c)']
+        lines.append('    ' + body)
     return decos + ''.join(indent + ln + '\n' for ln in lines)
 
 
 NEST_HELPERS = """
+import asyncio
 _CUR = [None]
 def _enter(c, k):
     kid = c['kids'][k]
@@ -918,22 +1246,36 @@ def _leave(c):
 """
 
 
-def module_src(sigs, xsrcs, pairsrcs, nested=None):
+VARIANTS = ('Box', 'static', 'classm', 'BoxI', 'Pair', 'NG', 'Direct', 'plain')
+
+
+def variant_of(cls_):
+    """the place in the generated module where the function an instance / kind uses is defined"""
+    return 'Box' if cls_ == 'Raw' else cls_
+
+
+def module_src(sigs, xsrcs, pairsrcs, nested=None, used=None):
     """sigs: {generated name: signature}; xsrcs: source texts X of the Box[X] / BoxI[X] instances; pairsrcs: 'X, Y' texts;
-    nested: {generated name: (signature, [(how, name of the nested function)])} — functions whose body makes nested calls"""
+    nested: {generated name: (signature, [(how, name of the nested function)], mode)} — functions whose body makes nested calls;
+    used: {generated name: set of VARIANTS} — where a function is needed (default: everywhere)"""
     out = [HEADER, NEST_HELPERS]
     for (n, src, _) in TVS:
         out.append(f'{n} = {src}\n')
-    table = sorted([(n, s, None) for n, s in sigs.items()] + [(n, s, kids) for n, (s, kids) in (nested or {}).items()], key=lambda e: e[0])
-    methods = ''.join(method_src(n, s, kids=kids) for n, s, kids in table)
-    out.append('\n@pedantic_class\nclass Box(Generic[T]):\n' + methods)
-    out.append(''.join(method_src('sm_' + n, s, self_kw='', deco='@staticmethod', kids=kids) for n, s, kids in table))
-    out.append(''.join(method_src('cm_' + n, s, self_kw='cls', deco='@classmethod', kids=kids) for n, s, kids in table))
-    out.append('\n@pedantic_class\nclass BoxI(Generic[T]):\n    def __init__(self, a: T) -> None: self.a = a\n' + methods)
-    out.append('\n@pedantic_class\nclass Pair(Generic[T, S]):\n' + methods)
-    out.append('\n@pedantic_class\nclass NG:\n' + methods)
-    out.append('\nclass Direct:\n' + ''.join(method_src(n, s, deco='@pedantic', kids=kids) for n, s, kids in table))
-    out.append('\n' + ''.join(method_src('f_' + n, s, self_kw='', deco='@pedantic', indent='', kids=kids) for n, s, kids in table))
+    table = sorted([(n, s, None, None) for n, s in sigs.items()] + [(n, s, kids, mode) for n, (s, kids, mode) in (nested or {}).items()], key=lambda e: e[0])
+
+    def rows(v):
+        return [e for e in table if used is None or v in used.get(e[0], VARIANTS)]
+
+    def methods(v):
+        return ''.join(method_src(n, s, kids=kids, mode=mode) for n, s, kids, mode in rows(v)) or '    pass\n'
+    out.append('\n@pedantic_class\nclass Box(Generic[T]):\n' + methods('Box'))
+    out.append(''.join(method_src('sm_' + n, s, self_kw='', deco='@staticmethod', kids=kids, mode=mode) for n, s, kids, mode in rows('static')))
+    out.append(''.join(method_src('cm_' + n, s, self_kw='cls', deco='@classmethod', kids=kids, mode=mode) for n, s, kids, mode in rows('classm')))
+    out.append('\n@pedantic_class\nclass BoxI(Generic[T]):\n    def __init__(self, a: T) -> None: self.a = a\n' + methods('BoxI'))
+    out.append('\n@pedantic_class\nclass Pair(Generic[T, S]):\n' + methods('Pair'))
+    out.append('\n@pedantic_class\nclass NG:\n' + methods('NG'))
+    out.append('\nclass Direct:\n' + (''.join(method_src(n, s, deco='@pedantic', kids=kids, mode=mode) for n, s, kids, mode in rows('Direct')) or '    pass\n'))
+    out.append('\n' + ''.join(method_src('f_' + n, s, self_kw='', deco='@pedantic', indent='', kids=kids, mode=mode) for n, s, kids, mode in rows('plain')))
     warm = sig_name(WARM)
     for k, x in enumerate(xsrcs):
         out.append(f'\ndef mk_{k}():\n    x = Box[{x}]()\n    return x\n')
@@ -942,11 +1284,19 @@ def module_src(sigs, xsrcs, pairsrcs, nested=None):
     for k, x in enumerate(pairsrcs):
         out.append(f'\ndef mkp_{k}():\n    x = Pair[{x}]()\n    return x\n')
         out.append(f'\ndef mkpw_{k}():\n    x = Pair[{x}]()\n    x.{warm}()\n    return x\n')
+    # an instance of the same class with ANOTHER X that is used once and discarded just before an instance is created: CPython hands the
+    # freed block to the next object of that size, so the new instance lives at the address of the dead one (bindings kept per address
+    # would be inherited from it)
+    out.append(f'\ndef decoy_Box():\n    x = Box[object]()\n    x.{warm}()\n    return id(x)\n')
+    out.append(f'\ndef decoy_BoxI():\n    x = BoxI[object](a=None)\n    x.{warm}()\n    return id(x)\n')
+    out.append(f'\ndef decoy_Pair():\n    x = Pair[object, object]()\n    x.{warm}()\n    return id(x)\n')
     out.append('\ndef mkraw():\n    return Box()\n')
     out.append('\ndef mkng():\n    return NG()\n')
     out.append('\ndef mkdirect():\n    return Direct()\n')
     out.append('\ndef scan(name, kw):\n    x = Box()\n    return getattr(x, name)(**kw)\n')
     out.append('\ndef call(obj, name, kw):\n    return getattr(obj, name)(**kw)\n')
+    out.append('\ndef call_gen(obj, name, kw):\n    return list(getattr(obj, name)(**kw))\n')
+    out.append('\ndef call_async(obj, name, kw):\n    return asyncio.run(getattr(obj, name)(**kw))\n')
     return ''.join(out)
 
 
@@ -978,13 +1328,18 @@ def classify(thunk):
 def _worker(cases):
     # every signature and every X of this batch goes into one generated module
     sigs, xsrcs, pairsrcs, nested = {sig_name(WARM): WARM}, {}, {}, {}
+    used = {sig_name(WARM): set(VARIANTS)}
     for c in cases:
         for st in c['x']['steps']:
             if st['op'] != 'init':
                 for nd in [st] + list(walk_nodes(st)):
+                    v = variant_of(c['x']['insts'][nd['i']]['cls'])
                     sigs[sig_name(nd['sig'])] = nd['sig']        # the function with the empty body (also used for "the same call alone")
-                    if nd.get('kids'):
-                        nested[node_name(nd)] = (nd['sig'], [(k['how'], node_name(k)) for k in nd['kids']])
+                    used.setdefault(sig_name(nd['sig']), set()).add(v)
+                    used.setdefault(node_name(nd), set()).add(v)
+                    if nd.get('kids') and nd['sig'].get('flav') != 'rec':
+                        nested[node_name(nd)] = (nd['sig'], [(k['how'], node_name(k)) for k in nd['kids']],
+                                                 ('aio:' + ('gather' if nd['aio'] is True else nd['aio'])) if nd.get('aio') else ('sched' if 'order' in nd else None))
         for d in c['x']['insts']:
             if d['cls'] in ('Box', 'BoxI'):
                 xsrcs.setdefault(ann_src(d['X'][0]), len(xsrcs))
@@ -996,7 +1351,7 @@ def _worker(cases):
     try:
         path = os.path.join(tmp, modname + '.py')
         with open(path, 'w') as f:
-            f.write(module_src(sigs, list(xsrcs), list(pairsrcs), nested))
+            f.write(module_src(sigs, list(xsrcs), list(pairsrcs), nested, used))
         spec = importlib.util.spec_from_file_location(modname, path)
         mod = importlib.util.module_from_spec(spec)
         sys.modules[modname] = mod
@@ -1021,7 +1376,24 @@ def _worker(cases):
                 return {concrete(a): concrete(b) for a, b in v[1]}
             return classes[CL[v[1]]]
 
+        dead = set()
+
         def make(d, init_arg=None, warm=None):
+            """Cls[X]() is created where a discarded instance Cls[object]() of the same class lived: a decoy is created, used once and dropped
+            (it sits in a reference cycle: the two young generations are collected), then the instance is made - again, with one more decoy, until it
+            has the address of some dead decoy (a handful of rounds at most; CPython hands freed blocks to the next object of that size)"""
+            if d['cls'] in ('Box', 'BoxI', 'Pair'):
+                import gc
+                for _ in range(12):
+                    dead.add(getattr(mod, 'decoy_' + d['cls'])())
+                    gc.collect(1)               # the decoy may have been moved out of the youngest generation while it was built
+                    obj = make1(d, init_arg, warm)
+                    if id(obj) in dead:
+                        break
+                return obj
+            return make1(d, init_arg, warm)
+
+        def make1(d, init_arg=None, warm=None):
             c = d['cls']
             w = d.get('warm') if warm is None else warm
             if c == 'Box':
@@ -1045,17 +1417,30 @@ def _worker(cases):
         def kwargs_of(st):
             kw = {n: concrete(st['vals'][n]) for n, _ in st['sig']['ps'] if n in st['vals']}
             if st['sig']['ret'] is not None:
-                kw['r'] = concrete(st['r'])
+                kw['r'] = [concrete(y) for y in st['r']] if st['sig'].get('flav') in GEN_FLAVS else concrete(st['r'])
             return kw
 
-        def try_make(d, init_arg=None, warm=None):
-            """(instance or None, outcome class of the creation)"""
+        def try_make(d, init_arg=None, warm=None, lifetimes=True):
+            """(instance or None, outcome class of the creation); lifetimes: created at the address of a discarded instance (see make)"""
             box = {}
-            out = classify(lambda: box.setdefault('o', make(d, init_arg, warm)))
+            out = classify(lambda: box.setdefault('o', (make if lifetimes else make1)(d, init_arg, warm)))
             return box.get('o'), out
 
         def journal_node(nd, objs):
-            return {'kw': kwargs_of(nd), 'obj': objs.get(nd['i']), 'kids': [journal_node(k, objs) for k in nd.get('kids') or []], 'ran': False, 'exc': None}
+            return {'kw': kwargs_of(nd), 'obj': objs.get(nd['i']), 'kids': [journal_node(k, objs) for k in nd.get('kids') or []], 'ran': False, 'exc': None,
+                    'done': False, 'got': [], 'order': list(nd.get('order') or [])}
+
+        def perform(obj, nm, kw, flav):
+            """make the call and see it through: exhaust the generator, run the coroutine to its end"""
+            if flav in GEN_FLAVS:
+                return classify(lambda: mod.call_gen(obj, nm, kw))
+            if flav == 'async':
+                return classify(lambda: mod.call_async(obj, nm, kw))
+            mod._CUR[0] = {'kids': []}
+            try:
+                return classify(lambda: mod.call(obj, nm, kw))
+            finally:
+                mod._CUR[0] = None
 
         def flat(j):
             for k in j['kids']:
@@ -1071,12 +1456,11 @@ def _worker(cases):
             if d['cls'] in INSTANCE_KINDS:
                 if d['cls'] == 'BoxI' and nd['i'] not in inits:
                     return None
-                fresh, out = try_make(d, concrete(inits[nd['i']]) if d['cls'] == 'BoxI' else None, warm=True)
+                fresh, out = try_make(d, concrete(inits[nd['i']]) if d['cls'] == 'BoxI' else None, warm=True, lifetimes=False)
                 if out != 'ok':
                     return 'CREATE:' + out
             obj, nm = target(d, fresh, sig_name(nd['sig']))
-            kw = kwargs_of(nd)
-            return classify(lambda: mod.call(obj, nm, kw))
+            return perform(obj, nm, kwargs_of(nd), nd['sig'].get('flav'))
 
         results = []
         for c in cases:
@@ -1155,10 +1539,17 @@ def describe_call(case, st):
     d = case['x']['insts'][st['i']]
     who = d['cls'] + ('[' + ', '.join(ann_src(x) for x in d['X']) + ']' if 'X' in d else '')
     s = st['sig']
-    sg = '(' + ', '.join(f'{n}: {ann_src(a)}' + (f' = {val_src(s["defs"][n])}' if n in (s.get('defs') or {}) else '') for n, a in s['ps']) + ')' + (' -> ' + ann_src(s['ret']) if s['ret'] is not None else '')
-    txt = f'on #{st["i"]} {who}: {st.get("op", "call")} {sg} with {json.dumps(st["vals"])}' + (f' returning {json.dumps(st["r"])}' if st.get('r') is not None else '')
+    flav = s.get('flav')
+    res = {'iter': 'Iterator[%s]', 'gen': 'Generator[%s, None, None]', 'itb': 'Iterable[%s]'}.get(flav, '%s')
+    sg = '(' + ', '.join(f'{n}: {ann_src(a)}' + (f' = {val_src(s["defs"][n])}' if n in (s.get('defs') or {}) else '') for n, a in s['ps']) + ')' \
+        + (' -> ' + res % ann_src(s['ret']) if s['ret'] is not None else '')
+    what = {'iter': 'generator call', 'gen': 'generator call', 'itb': 'generator call', 'async': 'coroutine call', 'rec': 'call of the recursive'}.get(flav, st.get('op', 'call'))
+    txt = f'on #{st["i"]} {who}: {what} {sg} with {json.dumps(st["vals"])}'
+    if st.get('r') is not None:
+        txt += (f' yielding {json.dumps(st["r"])}' if flav in GEN_FLAVS else f' returning {json.dumps(st["r"])}')
     if st.get('kids'):
-        txt += ' whose body calls [' + '; '.join(f"{k['how']} #{k['i']} {node_name(k)}" for k in st['kids']) + ']'
+        mode = f"runs the coroutines ({st['aio']}):" if st.get('aio') else (f'advances the generators in the order {st["order"]}:' if 'order' in st else 'calls')
+        txt += f' whose body {mode} [' + '; '.join(f"{k['how']} #{k['i']} {node_name(k)}" for k in st['kids']) + ']'
     return txt
 
 
